@@ -1,8 +1,9 @@
 """Both-ways self-test of a property's rules (thorough tier).
 
-  silent  : the rules are re-run on a scratch copy of the package in which every Python file was re-emitted by
-            ast.unparse (all line numbers, comments and layout differ): the set of obligations and every verdict must be
-            identical (findings are keyed by construct, never by position).
+  silent  : the rules are re-run (a) on a scratch copy of the package in which every Python file was re-emitted by
+            ast.unparse (all line numbers, comments and layout differ) and (b) on a copy in which every function-local
+            variable was renamed: the set of obligations and every verdict must be identical (findings are keyed by
+            construct, never by position; local names are normalised against sa/baseline_locals.json).
   firing  : (a) every defect this project repaired with a `fix:` commit is re-introduced into a scratch copy by reversing
                 that commit; the check must report a violation with the key recorded in known_findings.json;
             (b) every stored seeded change (seeded/<id>/patch.diff) recorded as detected by this property is applied to a
@@ -66,6 +67,18 @@ def _normalise(root):
     return n
 
 
+def _rename_locals(root):
+    """Every function-local variable of every Python file gets a new name (behaviour preserving)."""
+    from .alpha import Renamer
+    for dirpath, _d, files in os.walk(os.path.join(root, "aiokafka")):
+        for f in files:
+            if f.endswith(".py"):
+                p = os.path.join(dirpath, f)
+                tree = Renamer().visit(ast.parse(open(p, encoding="utf-8").read()))
+                ast.fix_missing_locations(tree)
+                open(p, "w", encoding="utf-8").write(ast.unparse(tree) + "\n")
+
+
 def _variant(args):
     """Worker: build one scratch variant, run the rules, return a summary."""
     pid, repo_root, kind, spec = args
@@ -74,6 +87,8 @@ def _variant(args):
         _copy_pkg(repo_root, tmp)
         if kind == "normalised":
             _normalise(tmp)
+        elif kind == "renamed":
+            _rename_locals(tmp)
         elif kind == "revert":
             diff = subprocess.run(["git", "-C", repo_root, "show", "--format=", spec, "--", "aiokafka"], capture_output=True, text=True)
             if diff.returncode != 0 or not diff.stdout.strip():
@@ -97,7 +112,7 @@ def _variant(args):
 
 def run(pid, rep, repo_root):
     known = json.load(open(KNOWN)).get("findings", []) if os.path.exists(KNOWN) else []
-    jobs = [(pid, repo_root, "normalised", "")]
+    jobs = [(pid, repo_root, "normalised", ""), (pid, repo_root, "renamed", "")]
     for k in known:
         if k.get("property") == pid and k.get("status") == "fixed" and k.get("commit"):
             jobs.append((pid, repo_root, "revert", k["commit"]))
@@ -121,8 +136,8 @@ def run(pid, rep, repo_root):
     for r in results:
         d = {"kind": r["kind"], "spec": os.path.relpath(r["spec"], VERIF) if r["spec"].startswith(VERIF) else r["spec"]}
         if "error" in r or "analysis_error" in r:
-            if r["kind"] == "normalised":
-                problems.append(f"normalised copy: {r.get('error') or r.get('analysis_error')}")
+            if r["kind"] in ("normalised", "renamed"):
+                problems.append(f"{r['kind']} copy: {r.get('error') or r.get('analysis_error')}")
             else:
                 # a mutant that removes an anchor is an honest 'cannot decide', but the self-test expects a violation
                 d["note"] = "ANALYSIS-ERROR on the variant: " + (r.get("error") or r.get("analysis_error"))[:160]
@@ -130,13 +145,13 @@ def run(pid, rep, repo_root):
         elif "skipped" in r:
             summary["skipped"] += 1
             d["note"] = r["skipped"]
-        elif r["kind"] == "normalised":
+        elif r["kind"] in ("normalised", "renamed"):
             if r["verdicts"] == base:
                 summary["silent_ok"] += 1
                 d["note"] = f"{len(base)} obligation keys, identical verdicts"
             else:
                 diff = sorted(set(r["verdicts"].items()) ^ set(base.items()))[:6]
-                problems.append(f"normalised copy changes obligations/verdicts: {diff}")
+                problems.append(f"{r['kind']} copy changes obligations/verdicts: {diff}")
         else:
             new = [v for v in r["violations"] if v not in open_known]
             if not new:
